@@ -31,6 +31,14 @@ Theorem C20_nanmax_int arr n : (0 < n)%nat -> nan_reduce (zops true 0) NMax arr 
 Proof. exact (nanmax_any_threads _ (zops_laws true 0) (zops_null_unique true 0) eq_refl arr n). Qed.
 Theorem C20_nanmin_int arr n : (0 < n)%nat -> nan_reduce (zops true 0) NMin arr n = min_exec (zops true 0) (nonnull (zops true 0) arr).
 Proof. exact (nanmin_any_threads _ (zops_laws true 0) (zops_null_unique true 0) eq_refl arr n). Qed.
+(* skipna = False: nulls are not skipped, and a null anywhere makes the maximum / minimum null (one pass; NumPy's plain max / min).
+   Before /repo's fix of NumbaReductionOps.max / min a NaN was dropped or restarted the scan - with a different result for
+   different thread counts: nanmin([5, NaN, 7], skipna=False) was 7, NaN, 7, 5 for 1, 2, 3, 4 threads. *)
+Theorem C20_max_min_noskip_float (want_max : bool) arr : arr <> [] ->
+  nb_reduce fops (if want_max then op_max fops else op_min fops) arr false None
+  = if existsb (is_null fops) arr then null fops else if want_max then max_exec fops arr else min_exec fops arr.
+Proof. exact (noskip_ext_one_pass fops fops_laws fops_null_unique want_max arr). Qed.
+Print Assumptions C20_max_min_noskip_float.
 Print Assumptions C20_nanmax_float.
 Print Assumptions C20_nanmin_float.
 Print Assumptions C20_nanmax_int.
